@@ -169,7 +169,10 @@ struct Runner {
 			Ctx c = begin("convolve", o, armed); bool ok = guarded([&]() { t->convolve(dim, kk, 3); });
 			end(c, ok, "\"dim\":" + std::to_string(dim + 1) + ",\"nk\":3");
 		} else if (name == "permute") {
-			bool good = op["good"].b; std::vector<size_t> p(t->get_ndim()); for (size_t i = 0; i < p.size(); i++) p[i] = p.size() - 1 - i;
+			// valid permutations alternate between the reversal (its own inverse) and a rotation (for three and more dimensions
+			// not its own inverse: a mix-up of a permutation with its inverse pairs arrays of different dimensions)
+			static long permcount = 0; const bool rot = (permcount++ % 2) == 1;
+			bool good = op["good"].b; std::vector<size_t> p(t->get_ndim()); for (size_t i = 0; i < p.size(); i++) p[i] = rot ? (i + 1) % p.size() : p.size() - 1 - i;
 			if (!good && !p.empty()) p[0] = p.size() + 3;
 			if (p.empty()) good = true;   // the empty permutation of an empty table is valid
 			Ctx c = begin("permute", o, -1); bool ok = guarded([&]() { t->permuteDimensions(p); });
